@@ -60,6 +60,11 @@ func (s *Server) getGateKeeper(r *http.Request) sts.GateKeeper {
 	if source == "" {
 		return nil
 	}
+	if source == "." || source == ".." {
+		// Would make the parent of the stage / target / log directories (or
+		// those directories themselves) this "source's" own
+		return nil
+	}
 	s.lock.RLock()
 	if gk, ok := s.GateKeepers[source]; ok {
 		s.lock.RUnlock()
